@@ -550,16 +550,21 @@ def lift_init(tree, src, out, meta):
 def lift_gridsearch(tree, src, out, meta):
     init = find_func(tree, "GridSearch", "__init__")
     ib = strip_docs(init.body)
-    ow = one([s for s in ib if isinstance(s, ast.Assign) and ast.unparse(s.targets[0]) == "self.objective_weight"],
-             "`self.objective_weight = ...`")
     cwa = one([s for s in ib if isinstance(s, ast.Assign) and ast.unparse(s.targets[0]) == "self.constraint_weight"],
               "`self.constraint_weight = ...`")
     if ast.unparse(cwa.value) not in ("float(constraint_weight)", "constraint_weight"):
         raise U(f"self.constraint_weight = {ast.unparse(cwa.value)}")
-    ow_term, t = Expr({"constraint_weight": ("cw", "Rat"), "self.constraint_weight": ("cw", "Rat")}, src).tr(ow.value)
-    if t != "Rat":
-        raise U("objective weight is not a float expression")
-    meta["objectiveWeight"] = ast.unparse(ow.value)
+    # `self.objective_weight = 1.0 - constraint_weight` (optional: `fit` may compute the objective weight inline)
+    ows = [s for s in ib if isinstance(s, ast.Assign) and ast.unparse(s.targets[0]) == "self.objective_weight"]
+    ow_term = None
+    if ows:
+        ow = one(ows, "`self.objective_weight = ...`")
+        ow_term, t = Expr({"constraint_weight": ("cw", "Rat"), "self.constraint_weight": ("cw", "Rat")}, src).tr(ow.value)
+        if t != "Rat":
+            raise U("objective weight is not a float expression")
+        meta["objectiveWeight"] = ast.unparse(ow.value)
+    else:
+        meta["objectiveWeight"] = None
 
     fit = find_func(tree, "GridSearch", "fit")
     fb = strip_docs(fit.body)
@@ -660,8 +665,12 @@ def lift_gridsearch(tree, src, out, meta):
     if len(strip_docs(lf.body)) != 1:
         raise U("loss_fct has more than a return statement")
     gam_cols = (f"self.gammas_[grid.columns[{li}]]", f"self.gammas_.iloc[:, {li}]")
-    env = {"self.objective_weight": ("ow", "Rat"), "self.constraint_weight": ("cw", "Rat"),
-           f"self.objectives_[{li}]": ("obj", "Rat")}
+    env = {"self.constraint_weight": ("cw", "Rat"), f"self.objectives_[{li}]": ("obj", "Rat")}
+    if "self.objective_weight" in ast.unparse(ret.value):
+        # resolved through the __init__ assignment, so that both spellings of the loss give the same Lean term
+        if ow_term is None:
+            raise U("loss_fct reads self.objective_weight, which __init__ does not assign")
+        env["self.objective_weight"] = (ow_term, "Rat")
     agg = None
     for gcol in gam_cols:
         for a in ("max", "min"):
@@ -701,8 +710,8 @@ def lift_gridsearch(tree, src, out, meta):
     meta["delegation"] = "self.predictors_[self.best_idx_]"
     out += [
         "/-! ### `GridSearch.__init__` / `fit` / `predict` -/", "",
-        f"/-- `self.objective_weight = {meta['objectiveWeight']}` -/",
-        f"def objectiveWeight (cw : Rat) : Rat := {ow_term}", "",
+        f"/-- `self.objective_weight = {meta['objectiveWeight']}` (read by `loss_fct` only in the older spelling, where it is inlined) -/",
+        f"def objectiveWeight (cw : Rat) : Rat := {ow_term if ow_term is not None else 'cw  -- not assigned in the source'}", "",
         f"/-- `{meta['combine']}` (`span` = objective_in_the_span, `w` = constraint weights, `ow` = objective weights) -/",
         f"def combine (span : Bool) (w ow : Rat) : Rat := if {span_cond} then {add_term} else w", "",
         f"/-- `{meta['relabelY']}` -/",
@@ -712,7 +721,7 @@ def lift_gridsearch(tree, src, out, meta):
         f"/-- `if {meta['useDummy']}:` train a constant DummyClassifier instead of the estimator -/",
         f"def useDummy (nUnique : Int) : Bool := {dummy}", "",
         f"/-- `loss_fct`: `{meta['loss']}` -/",
-        f"def loss (ow cw obj gAgg : Rat) : Rat := {loss}", "",
+        f"def loss (cw obj gAgg : Rat) : Rat := {loss}", "",
         "/-- how `loss_fct` aggregates the gamma column -/",
         f"def gammaAgg : Agg := .{agg}", "",
         f"/-- `self.best_idx_ = {btxt}`: which extreme of `losses` (always its FIRST position) -/",
